@@ -1,7 +1,24 @@
 package main
 
+import "fmt"
+
 func registry() []PropSpec {
 	return []PropSpec{
+		{
+			ID: "C14",
+			Quick: []HarnessSpec{
+				{Pkg: pkgTracer, Func: "H14a_resp_q", Unwind: 40, CaseGen: c14Cases(2, 2, 2), CaseNote: c14Note(2, 2, 2), Note: "response body: <=2 enveloped messages (any flags byte, any payload bytes), terminal condition EOF / read error (also mid-data) / Close (ok or failing) symbolic; no decompressor"},
+				{Pkg: pkgTracer, Func: "H14a_respz_q", Unwind: 40, CaseGen: c14Cases(2, 2, 2), CaseNote: c14Note(2, 2, 2), Note: "same with a (stub) decompressor negotiated"},
+				{Pkg: pkgTracer, Func: "H14a_req_q", Unwind: 40, CaseGen: c14Cases(2, 2, 2), CaseNote: c14Note(2, 2, 2), Note: "request body, same bounds"},
+			},
+			Thorough: []HarnessSpec{
+				{Pkg: pkgTracer, Func: "H14a_resp_t", Unwind: 60, CaseGen: c14Cases(3, 2, 3), CaseNote: c14Note(3, 2, 3), Note: "response body: <=3 enveloped messages, symbolic flags/payload/terminal condition; no decompressor"},
+				{Pkg: pkgTracer, Func: "H14a_respz_t", Unwind: 60, CaseGen: c14Cases(3, 2, 3), CaseNote: c14Note(3, 2, 3), Note: "same with a (stub) decompressor"},
+				{Pkg: pkgTracer, Func: "H14a_req_t", Unwind: 60, CaseGen: c14Cases(3, 2, 3), CaseNote: c14Note(3, 2, 3), Note: "request body"},
+			},
+			Stubs: []string{"wrapped body = script reader with symbolic chunk sizes and terminal condition", "decompressor = contract stub (output = input xor 0x55)", "bytes.Buffer modelled on its fields (Write/String/Read/Len), Buffer.ReadFrom = loop of Read+Write", "time.Since nondeterministic", "collector records the completed trace"},
+			Out:   []string{"real decompressors (C20)", "HTTP plumbing around the reader (RoundTripper/Handler)"},
+		},
 		{
 			ID: "C09",
 			Quick: []HarnessSpec{
@@ -20,5 +37,93 @@ func registry() []PropSpec {
 			Stubs: []string{"component strings drawn from a finite alphabet of constant strings"},
 			Out:   []string{"known-failing/known-flaky conflict rejection inside run()"},
 		},
+	}
+}
+
+
+func c14Note(M, L, R int) string {
+	return fmt.Sprintf("case split (enumerated completely): declared length of each of %d messages in 0..%d, cut point (limit) at every byte of the stream, every partition of the delivered bytes into %d Read calls (sizes >= 0), and per read the terminal behaviour (nothing / EOF / error at the end of the data, error in the middle); inside each case the flags bytes, payload bytes and the outcome of Close are symbolic", M, L, R)
+}
+
+// c14Cases enumerates layouts (message lengths), cut points and chunkings for the body-tracing harness.
+func c14Cases(M, L, R int) func() []map[string]int64 {
+	return func() []map[string]int64 {
+		var out []map[string]int64
+		lens := make([]int, M)
+		var recLens func(k int)
+		recLens = func(k int) {
+			if k == M {
+				total := 0
+				for _, l := range lens {
+					total += 5 + l
+				}
+				for limit := 0; limit <= total; limit++ {
+					parts := make([]int, R)
+					var recParts func(i, left int)
+					recParts = func(i, left int) {
+						if i == R-1 {
+							parts[i] = left
+							// terminal behaviour per read: after read i the body is either at its end (then it reports
+							// nothing / EOF / error: re#i in 0..2) or not (then it may fail mid-data: rfail#i in 0..1)
+							type opt struct {
+								k string
+								n int
+							}
+							var opts []opt
+							pos := 0
+							for j, p := range parts {
+								pos += p
+								if pos == limit {
+									opts = append(opts, opt{fmt.Sprintf("re#%d", j), 3})
+								} else {
+									opts = append(opts, opt{fmt.Sprintf("rfail#%d", j), 2})
+								}
+							}
+							var recOpt func(j int, cur map[string]int64)
+							recOpt = func(j int, cur map[string]int64) {
+								if j == len(opts) {
+									c := map[string]int64{"limit": int64(limit)}
+									for q, l := range lens {
+										c[fmt.Sprintf("len#%d", q)] = int64(l)
+									}
+									for q, p := range parts {
+										c[fmt.Sprintf("rn#%d", q)] = int64(p)
+										c[fmt.Sprintf("re#%d", q)] = 0
+										c[fmt.Sprintf("rfail#%d", q)] = 0
+									}
+									for k, v := range cur {
+										c[k] = v
+									}
+									out = append(out, c)
+									return
+								}
+								for v := 0; v < opts[j].n; v++ {
+									cur[opts[j].k] = int64(v)
+									recOpt(j+1, cur)
+									if v > 0 {
+										// the application stops reading at the first error/EOF: later reads are irrelevant
+									}
+								}
+								delete(cur, opts[j].k)
+							}
+							recOpt(0, map[string]int64{})
+							return
+						}
+						for v := 0; v <= left; v++ {
+							parts[i] = v
+							recParts(i+1, left-v)
+						}
+					}
+					recParts(0, limit)
+				}
+				return
+			}
+			for v := 0; v <= L; v++ {
+				lens[k] = v
+				recLens(k + 1)
+			}
+		}
+		recLens(0)
+		return out
 	}
 }
